@@ -206,6 +206,24 @@ func (u *Unit) allocFrameObligations(f *Frame, out, entry *State, con *Contract)
 // frameGoal: formula stating that heap map hn in state now differs from the entry
 // state only at the locations named by the assigns clause (for pre-existing objects).
 func (u *Unit) frameGoal(hn string, now, entry *State, con *Contract) string {
+	g := u.frameGoalBase(hn, now, entry, con)
+	if g == "" || len(con.AllocTypes) == 0 || strings.HasPrefix(hn, "M_") || strings.HasPrefix(hn, "VM_") {
+		return g
+	}
+	// typed allocates: a heap whose type is not listed holds no new object either (also an
+	// implicit invariant of every loop, like the assigns clause)
+	env := &SpecEnv{u: u, st: entry, old: entry, vars: u.topParams, oldVars: u.topParams, pkg: con.Pkg, fr: &Frame{u: u, fn: u.fn, pure: true}}
+	typed := u.allocHeapNames(con, env)
+	if typed == nil {
+		return g
+	}
+	if _, ok := typed[hn]; ok {
+		return g
+	}
+	return fmt.Sprintf("(and %s (forall ((r Int)) (=> (> r alloc_init) (= (select %s r) (select %s r)))))", g, now.heaps[hn], u.heapGet(entry, hn, u.heapTy[hn]))
+}
+
+func (u *Unit) frameGoalBase(hn string, now, entry *State, con *Contract) string {
 	ty := u.heapTy[hn]
 	if ty == nil || u.frameSkip[hn] {
 		return ""
